@@ -27,7 +27,7 @@ const CHUNK: u64 = 1296;
 /// three blocks; thorough: all nine up to four blocks)
 const QUICK_K4_FLAVOURS: [usize; 4] = [1, 3, 5, 6];
 /// flavours enumerated with six blocks (thorough)
-const K6_FLAVOURS: [usize; 2] = [3, 5];
+const K6_FLAVOURS: [usize; 1] = [3];
 /// flavours for the module trees with colliding names: same test names in
 /// every module (per position / all `foo`), with and without a same-named
 /// filtermap, decoys
@@ -60,8 +60,7 @@ fn enumerated(tier: Tier, shape: usize, k: usize, flavour: usize) -> bool {
             // four blocks: only the trees with sub-modules called `pkg`
             (Tier::Quick, _) => flavour == PATHY_FLAVOUR_WIDE && shape <= FIRST_PATHY_SHAPE + 1,
             (Tier::Thorough, 0..=4) => PATHY_FLAVOURS_THOROUGH.contains(&flavour),
-            (Tier::Thorough, 5) => flavour == PATHY_FLAVOUR_WIDE,
-            // six blocks: only the trees with sub-modules called `pkg`
+            // five and six blocks: only the trees with sub-modules called `pkg`
             (Tier::Thorough, _) => flavour == PATHY_FLAVOUR_WIDE && shape <= FIRST_PATHY_SHAPE + 1,
         };
     }
@@ -182,7 +181,7 @@ impl Check for C19 {
         let kmax = cfg.tier.pick(4, 6);
         Meta {
             rule: format!(
-                "Part A: every package = (module tree of 1-3 modules, k <= {kmax} test blocks, module of every block, accept/reject of every block, flavour); all M^k placements x 2^k outcome vectors x {} flavours (trees 0-3: k = 5 flavours {:?}, k = 6 flavours {K6_FLAVOURS:?}; quick tier, k = 4: flavours {:?}; trees 4-9, whose module names collide with the path machinery (pkg.pkg, pkg.pkg.pkg, test, super_, std, dep, a/ab, a_b/b): quick flavours {PATHY_FLAVOURS_QUICK:?} for k <= 3 and, trees 4-5 only, flavour {PATHY_FLAVOUR_WIDE} for k = 4, thorough flavours {PATHY_FLAVOURS_THOROUGH:?} for k <= 4, flavour {PATHY_FLAVOUR_WIDE} for k = 5 and, trees 4-5 only, k = 6); compiled twice, run_tests twice per compilation, every TestCase of get_tests run once, get_function with two signatures for every test/function name. Callers: every (place, call form, kind of same-named function, outcome). Part B: every (sub-command form, file kind) pair, one process launch each; second unit: three directory packages with colliding sub-module names (pkg/mod.roto and pkg/pkg/mod.roto; test, super_, std, dep; a, ab, a_b, a_b.b), a `test foo` in every module, every accept/reject vector over the modules under `roto test <dir>` (check and run on the all-reject and all-accept vectors). Non-trivial: a package with at least one accepting and one rejecting block; every caller case; a launch that must fail or that must run an entry function",
+                "Part A: every package = (module tree of 1-3 modules, k <= {kmax} test blocks, module of every block, accept/reject of every block, flavour); all M^k placements x 2^k outcome vectors x {} flavours (trees 0-3: k = 5 flavours {:?}, k = 6 flavours {K6_FLAVOURS:?}; quick tier, k = 4: flavours {:?}; trees 4-9, whose module names collide with the path machinery (pkg.pkg, pkg.pkg.pkg, test, super_, std, dep, a/ab, a_b/b): quick flavours {PATHY_FLAVOURS_QUICK:?} for k <= 3 and, trees 4-5 only, flavour {PATHY_FLAVOUR_WIDE} for k = 4, thorough flavours {PATHY_FLAVOURS_THOROUGH:?} for k <= 4, and, trees 4-5 only, flavour {PATHY_FLAVOUR_WIDE} for k = 5 and k = 6); compiled twice, run_tests twice per compilation, every TestCase of get_tests run once, get_function with two signatures for every test/function name. Callers: every (place, call form, kind of same-named function, outcome). Part B: every (sub-command form, file kind) pair, one process launch each; second unit: three directory packages with colliding sub-module names (pkg/mod.roto and pkg/pkg/mod.roto; test, super_, std, dep; a, ab, a_b, a_b.b), a `test foo` in every module, every accept/reject vector over the modules under `roto test <dir>` (check and run on the all-reject and all-accept vectors). Non-trivial: a package with at least one accepting and one rejecting block; every caller case; a launch that must fail or that must run an entry function",
                 FLAVOURS.len(),
                 WIDE_FLAVOURS,
                 QUICK_K4_FLAVOURS
